@@ -8,7 +8,9 @@ from framework import Ctx, decide, lean_stage
 LEVEL = "proof"
 RULE = ("(content, prefix length, chunk length, checksum type) tuples: all prefixes and chunk lengths for "
         "short strings, boundary and random ones for long strings, plus zero chunk length / unsupported "
-        "type; distinct = distinct tuple; non-trivial = non-empty prefix and a CRC or modular type")
+        "type; distinct = distinct tuple; non-trivial = non-empty prefix and a CRC or modular type; EOF clause: "
+        "sender sessions (handler_props.PLANS['C09']), every EOF PDU retrieved is compared with the reference "
+        "checksum of the prefix of the source file it announces")
 
 
 def explore(ctx: Ctx, big: bool):
@@ -62,17 +64,50 @@ def explore(ctx: Ctx, big: bool):
 
 def search(ctx: Ctx):
     explore(ctx, True)
+    if not ctx.thorough:
+        import handler_props as hp
+        hp.run_plan(ctx, "C09", 4)
 
 
 def run(ctx: Ctx) -> int:
     lean = lean_stage(ctx.pid)
     explore(ctx, ctx.thorough)
-    # the EOF checksum clause: every EOF the source emits carries the checksum of the bytes sent
-    try:
-        import suite_source
-        suite_source.eof_checksum_oracle(ctx)
-    except ImportError:
-        ctx.notes.append("source-handler EOF clause: suite_source not available")
+    # the EOF checksum clause: every EOF the source emits (first, cancel, re-sent) carries the checksum of
+    # the bytes sent — sender sessions against the source model + oracle o_C09_eof (handler_props.PLANS)
+    import handler_props as hp
+    hp.replay_regressions(ctx, "C09")
+    hp.run_plan(ctx, "C09", hp.THOROUGH_SCALE if ctx.thorough else 1)
     return decide(ctx, lean, LEVEL, search=search, coverage_extra={"rule": RULE},
                   assumptions=["crcmod's table-driven CRC equals the bitwise model (validated, not proved)",
                                "file.read semantics: short reads at end of file"])
+
+
+def replay(ctx: Ctx, path: str) -> int:
+    import json
+    obj = json.load(open(path))
+    if "ops" in obj:                       # a sender session (EOF clause)
+        import handler_props as hp
+        return hp.replay(ctx, "C09", path)
+    if "data_hex" not in obj:
+        print(f"replay {path}: no input recorded ({obj.get('kind')}); theorem/correspondence problem: "
+              f"{json.dumps(obj.get('lean_problems', []))[:500]}")
+        return 1
+    data = b"" if obj["data_hex"] == "-" else bytes.fromhex(obj["data_hex"])
+    t, size, seg = int(obj["type"]), int(obj["size"]), int(obj["seg"])
+    impl = sc.Impl()
+    try:
+        p = impl.file_for(data)
+        out = impl.calc(p, t, size, seg)
+        ref = sc.reference(t, data[:size])
+        bad = ref is not None and out != "ok " + ref.hex()
+        if ref is not None and not bad:
+            wrong = bytes([ref[0] ^ 1]) + ref[1:]
+            bad = impl.verify(p, ref, t, size, seg) != "ok true" or impl.verify(p, wrong, t, size, seg) != "ok false"
+    finally:
+        impl.close()
+    if bad:
+        print(f"VIOLATION property=C09 replay={path}")
+        print("reproduced:", obj.get("signature"), out)
+        return 1
+    print("not reproduced on the current tree")
+    return 0
